@@ -58,22 +58,17 @@ def decFlags (s : String) : Option (Frames.Variant × Wrap.WVariant × Flags) :=
     let v : Frames.Variant := { zeroWidthChild := n % 2 == 1, ruleRightRepeat := n / 2 % 2 == 1,
                                 rstripCountsChars := n / 4 % 2 == 1, columnsZeroCount := n / 8 % 2 == 1 }
     let wv ← C02.decWVariant? b
-    -- table flags by position (leadingRepeat, minWidthCapsExpand, fixedRawMaximum, noColumnsAsserts, flexNegative, staleTableWidth);
+    -- table flags by position (leadingRepeat, minWidthCapsExpand, fixedRawMaximum, noColumnsAsserts, flexNegative, staleTableWidth,
+    -- flexClampZero);
     -- a flag the request does not mention keeps the model's default (`true` = rich 9.10.0 as found); the harness sends all six
     let bit (i : Nat) (dflt : Bool) : Bool := match c.toList[i]? with | some ch => ch == '1' | none => dflt
     let d : Flags := {}
     if c.toList.length < 3 then none else
     pure (v, wv, { leadingRepeat := bit 0 d.leadingRepeat, minWidthCapsExpand := bit 1 d.minWidthCapsExpand,
                    fixedRawMaximum := bit 2 d.fixedRawMaximum, noColumnsAsserts := bit 3 d.noColumnsAsserts,
-                   flexNegative := bit 4 d.flexNegative, staleTableWidth := bit 5 d.staleTableWidth })
+                   flexNegative := bit 4 d.flexNegative, staleTableWidth := bit 5 d.staleTableWidth,
+                   flexClampZero := bit 6 d.flexClampZero })
   | _ => none
-
-/-- fourth component of the flags: `1` (or absent) = a `ratio=0` column of an expanding table behaves as in the as-found code
-(what C07's `calcWidths` models); `0` = the code is repaired and such tables are outside the model -/
-def decRatioZero (s : String) : Bool :=
-  match s.splitOn "," with
-  | [_, _, _, d] => d != "0"
-  | _ => true
 
 def takeNats : Nat → List String → Option (List Nat × List String)
   | 0, ts => some ([], ts)
@@ -225,9 +220,7 @@ partial def staticOk (rz : Bool) (env : Env) : R → Bool
       && decide (0 ≤ o.width.getD 0)
   | .progressBar o => decide (0 < o.total.den) && decide (0 < o.completed.den) && decide (0 < o.time.den) && decide (0 ≤ o.width.getD 0)
   | .table o cols =>
-    (rz || !((o.expand || o.width.isSome)
-              && cols.any (fun c => match c with | .mk co _ _ _ => co.ratio == some 0)
-              && cols.any (fun c => match c with | .mk co _ _ _ => decide (1 ≤ co.ratio.getD 0))))
+    true
       && (match o.box with | some i => (boxOf i).isSome && (boxOf (substituteBox env (o.safeBox.getD env.safeBox) i)).isSome | none => true)
       && optTextOk o.title && optTextOk o.caption
       && (match cols with
@@ -260,7 +253,7 @@ def handlers : List (String × (List String → String)) := [
       let env := decEnv env
       let o ← decOpts opts
       let r ← parseTree tree
-      if !staticOk (decRatioZero flags) env r then none else
+      if !staticOk true env r then none else
       let w := decInt width
       let a := consoleRender (mkCfg f env poisonA) r o w
       let b := consoleRender (mkCfg f env poisonB) r o w
@@ -271,7 +264,7 @@ def handlers : List (String × (List String → String)) := [
       let f ← decFlags flags
       let env := decEnv env
       let r ← parseTree tree
-      if !staticOk (decRatioZero flags) env r then none else
+      if !staticOk true env r then none else
       let w := decInt width
       let a := measureGet (mkCfg f env poisonA) r w
       let b := measureGet (mkCfg f env poisonB) r w
